@@ -911,3 +911,260 @@ theorem rel_init (mx : Nat → Nat) (now0 : Nat) (sess : List Sess) : Rel mx (Ms
   ⟨Nat.le_refl _, rfl, rfl⟩
 
 end Coap.Sim
+
+/-! ## S level: where the ghost labels of a transmission come from -/
+namespace Coap.Timer
+
+/-- every label `(T, MAX_RETRANSMIT)` carried by a pending entry or a transmission is the label of a `send` (`Q`), and
+the first transmission `tx t0 … 0 t0 …` of that message is among the outputs -/
+def Orig (Q : Nat → Nat → Nat → Nat → Prop) (ts : TS) : Prop :=
+  (∀ p ∈ ts.pend, Q p.2.sess p.2.mid p.2.T p.2.maxRtx ∧
+    TOut.tx p.2.t0 p.2.sess p.2.mid 0 p.2.t0 p.2.T p.2.maxRtx ∈ ts.outs) ∧
+  (∀ t s mid k t0 T mx, TOut.tx t s mid k t0 T mx ∈ ts.outs →
+    Q s mid T mx ∧ TOut.tx t0 s mid 0 t0 T mx ∈ ts.outs)
+
+theorem fire_orig {Q : Nat → Nat → Nat → Nat → Prop} (fuel : Nat) (ts : TS) (h : Orig Q ts) : Orig Q (fire fuel ts) := by
+  induction fuel generalizing ts with
+  | zero => exact h
+  | succ f ih =>
+    rcases ts with ⟨now, pend, outs⟩
+    rcases pend with _ | ⟨⟨d, m⟩, r⟩
+    · exact h
+    · simp only [fire]
+      have hhd := h.1 (d, m) (by simp)
+      simp only [] at hhd
+      split
+      · split
+        · apply ih
+          constructor
+          · intro p hp
+            rcases mem_pinsert.1 hp with rfl | hp
+            · exact ⟨hhd.1, List.mem_cons_of_mem _ hhd.2⟩
+            · have := h.1 p (List.mem_cons_of_mem _ hp)
+              exact ⟨this.1, List.mem_cons_of_mem _ this.2⟩
+          · intro t s mid k t0 T mx ho
+            simp only [List.mem_cons] at ho
+            rcases ho with ho | ho
+            · injection ho with h1 h2 h3 h4 h5 h6 h7
+              subst h1 h2 h3 h4 h5 h6 h7
+              exact ⟨hhd.1, List.mem_cons_of_mem _ hhd.2⟩
+            · have := h.2 _ _ _ _ _ _ _ ho
+              exact ⟨this.1, List.mem_cons_of_mem _ this.2⟩
+        · apply ih
+          constructor
+          · intro p hp
+            have := h.1 p (List.mem_cons_of_mem _ hp)
+            exact ⟨this.1, List.mem_cons_of_mem _ this.2⟩
+          · intro t s mid k t0 T mx ho
+            simp only [List.mem_cons] at ho
+            rcases ho with ho | ho
+            · cases ho
+            · have := h.2 _ _ _ _ _ _ _ ho
+              exact ⟨this.1, List.mem_cons_of_mem _ this.2⟩
+      · exact h
+
+theorem step_orig {Q : Nat → Nat → Nat → Nat → Prop} (ts : TS) (ev : TEv) (h : Orig Q ts)
+    (hQ : ∀ s mid T mx, ev = .send s mid T mx → Q s mid T mx) : Orig Q (step ts ev) := by
+  cases ev with
+  | send s mid T mx =>
+    have hq := hQ s mid T mx rfl
+    simp only [step]
+    constructor
+    · intro p hp
+      rcases mem_pinsert.1 hp with rfl | hp
+      · exact ⟨hq, by simp⟩
+      · have := h.1 p hp
+        exact ⟨this.1, List.mem_cons_of_mem _ this.2⟩
+    · intro t s' mid' k t0 T' mx' ho
+      simp only [List.mem_cons] at ho
+      rcases ho with ho | ho
+      · injection ho with h1 h2 h3 h4 h5 h6 h7
+        subst h1 h2 h3 h4 h5 h6 h7
+        exact ⟨hq, by simp⟩
+      · have := h.2 _ _ _ _ _ _ _ ho
+        exact ⟨this.1, List.mem_cons_of_mem _ this.2⟩
+  | tick now' =>
+    simp only [step]
+    split
+    · exact fire_orig _ _ h
+    · exact h
+  | ack s mid =>
+    simp only [step]
+    rcases hr : premove ts.pend s mid with ⟨_ | m, r⟩
+    · exact h
+    · simp only []
+      constructor
+      · intro p hp
+        have hm : p ∈ (premove ts.pend s mid).2 := by rw [hr]; exact hp
+        have := h.1 p (mem_premove hm)
+        exact ⟨this.1, List.mem_cons_of_mem _ this.2⟩
+      · intro t s' mid' k t0 T' mx' ho
+        simp only [List.mem_cons] at ho
+        rcases ho with ho | ho
+        · cases ho
+        · have := h.2 _ _ _ _ _ _ _ ho
+          exact ⟨this.1, List.mem_cons_of_mem _ this.2⟩
+  | rst s mid =>
+    simp only [step]
+    rcases hr : premove ts.pend s mid with ⟨_ | m, r⟩
+    · exact h
+    · simp only []
+      constructor
+      · intro p hp
+        have hm : p ∈ (premove ts.pend s mid).2 := by rw [hr]; exact hp
+        have := h.1 p (mem_premove hm)
+        exact ⟨this.1, List.mem_cons_of_mem _ this.2⟩
+      · intro t s' mid' k t0 T' mx' ho
+        simp only [List.mem_cons] at ho
+        rcases ho with ho | ho
+        · cases ho
+        · have := h.2 _ _ _ _ _ _ _ ho
+          exact ⟨this.1, List.mem_cons_of_mem _ this.2⟩
+
+theorem run_orig {Q : Nat → Nat → Nat → Nat → Prop} (evs : List TEv) (ts : TS) (h : Orig Q ts)
+    (hQ : ∀ s mid T mx, TEv.send s mid T mx ∈ evs → Q s mid T mx) : Orig Q (run ts evs) := by
+  induction evs generalizing ts with
+  | nil => exact h
+  | cons ev evs ih =>
+    exact ih _ (step_orig ts ev h (fun s mid T mx he => hQ s mid T mx (by simp [he])))
+      (fun s mid T mx he => hQ s mid T mx (by simp [he]))
+
+theorem orig_init (Q : Nat → Nat → Nat → Nat → Prop) (now0 : Nat) : Orig Q (init now0) := by
+  constructor <;> simp [init]
+
+theorem runOk_append (ts : TS) (a b : List TEv) : RunOk ts (a ++ b) ↔ RunOk ts a ∧ RunOk (run ts a) b := by
+  induction a generalizing ts with
+  | nil => simp [RunOk, run]
+  | cons e a ih =>
+    simp only [List.cons_append, RunOk, run, List.foldl_cons]
+    rw [ih]
+    simp only [run, and_assoc]
+
+end Coap.Timer
+
+/-! ## punctual runs of M are punctual runs of S -/
+namespace Coap.Sim
+open Coap Coap.SQ Coap.Msg Coap.Timer
+
+/-- an I/O step, a submission or an arrival is *punctual* if the clock has not been moved past a pending deadline
+(what fires, fires at its deadline) -/
+def EvPunct (l : L) : Ev → Prop
+  | .setNow _ => True
+  | _ => ∀ e ∈ abs l.q, l.now ≤ e.deadline
+
+/-- `EvPunct` threaded along the run of M -/
+def Punctual (l : L) : List Ev → Prop
+  | [] => True
+  | ev :: evs => EvPunct l ev ∧ Punctual (Msg.step l ev) evs
+
+theorem absP_fst (mx : Nat → Nat) (b : Nat) (l : List Node) :
+    (absP mx b l).map (·.1) = (absFrom b l).map (·.deadline) := by
+  induction l generalizing b with
+  | nil => rfl
+  | cons n r ih => simp [absP, absFrom, ih]
+
+theorem rel_deadline {mx : Nat → Nat} {l : L} {ts : TS} (hr : Rel mx l ts) :
+    ∀ p ∈ ts.pend, ∃ e ∈ abs l.q, e.deadline = p.1 := by
+  intro p hp
+  have h1 : p.1 ∈ ts.pend.map (·.1) := List.mem_map.2 ⟨p, hp, rfl⟩
+  have h2 : ts.pend.map (·.1) = (ts.pend.map er).map (·.1) := by
+    rw [List.map_map]; rfl
+  rw [h2, hr.pend, absP_fst] at h1
+  obtain ⟨e, he, hd⟩ := List.mem_map.1 h1
+  exact ⟨e, he, hd⟩
+
+theorem rel_punct {mx : Nat → Nat} {l : L} {ts : TS} (hr : Rel mx l ts) (h : ∀ e ∈ abs l.q, l.now ≤ e.deadline) :
+    ∀ p ∈ ts.pend, l.now ≤ p.1 := by
+  intro p hp
+  obtain ⟨e, he, hd⟩ := rel_deadline hr p hp
+  rw [← hd]; exact h e he
+
+theorem step_pend_sub (ts : TS) (s mid : Nat) (rst : Bool) :
+    ∀ p ∈ (Timer.step ts (if rst then .rst s mid else .ack s mid)).pend, p ∈ ts.pend := by
+  intro p hp
+  cases rst
+  · simp only [Bool.false_eq_true, if_false, Timer.step] at hp
+    rcases hr : premove ts.pend s mid with ⟨_ | m, r⟩
+    · rw [hr] at hp; exact hp
+    · rw [hr] at hp
+      have : p ∈ (premove ts.pend s mid).2 := by rw [hr]; exact hp
+      exact mem_premove this
+  · simp only [if_true, Timer.step] at hp
+    rcases hr : premove ts.pend s mid with ⟨_ | m, r⟩
+    · rw [hr] at hp; exact hp
+    · rw [hr] at hp
+      have : p ∈ (premove ts.pend s mid).2 := by rw [hr]; exact hp
+      exact mem_premove this
+
+theorem step_runOk {par : Nat → Sess} {P : Nat → Nat → Nat → Prop} (l : L) (ts : TS) (ev : Ev)
+    (_hi : Inv par P l) (hr : Rel (mxOf par) l ts) (hok : EvIn l ev) (hpu : EvPunct l ev) : RunOk ts (tr l ev) := by
+  cases ev with
+  | setNow t => simp [tr, RunOk]
+  | prepare => exact ⟨rel_punct hr hpu, trivial⟩
+  | submit s con mid r =>
+    obtain ⟨_, _, hnd, hT, _⟩ := hok
+    exact ⟨rel_punct hr hpu, hT, trivial⟩
+  | rxAck s mid =>
+    refine ⟨trivial, ?_, trivial⟩
+    intro p hp
+    exact rel_punct hr hpu p (step_pend_sub ts s mid false p hp)
+  | rxRst s mid =>
+    have hnd : NothingDue l := hok
+    refine ⟨rel_punct hr hpu, trivial, ?_, trivial⟩
+    rw [tick_idle hr hnd]
+    intro p hp
+    exact rel_punct hr hpu p (step_pend_sub { ts with now := l.now } s mid true p hp)
+  | rxNon s mid tok => exact absurd hok (by simp [EvIn])
+  | rxBad s mid => exact absurd hok (by simp [EvIn])
+  | hold s => exact absurd hok (by simp [EvIn])
+  | connect s => exact absurd hok (by simp [EvIn])
+  | disconnect s => exact absurd hok (by simp [EvIn])
+
+theorem run_runOk {par : Nat → Sess} {P : Nat → Nat → Nat → Prop} (hp : ParOk par) :
+    ∀ (evs : List Ev) (l : L) (ts : TS), Inv par P l → Rel (mxOf par) l ts → RunIn l evs → Punctual l evs →
+      (∀ s mid r, Ev.submit s true mid r ∈ evs → P s mid (calcTimeout (par s).atI (par s).atF (par s).arfI (par s).arfF r)) →
+      RunOk ts (trRun l evs) := by
+  intro evs
+  induction evs with
+  | nil => intro l ts _ _ _ _ _; trivial
+  | cons ev evs ih =>
+    intro l ts hi hr hin hpu hP
+    obtain ⟨hi1, hr1⟩ := step_sim hp l ts ev hi hr hin.1 (fun s mid r h => hP s mid r (by simp [h]))
+    simp only [trRun]
+    rw [runOk_append]
+    exact ⟨step_runOk l ts ev hi hr hin.1 hpu.1, ih _ _ hi1 hr1 hin.2 hpu.2 (fun s mid r h => hP s mid r (by simp [h]))⟩
+
+/-! ### transmissions seen on M are transmissions of S, and back -/
+
+theorem obs_tx_M_to_S {l : L} {ts : TS} (ho : ts.outs.filterMap obsS = l.out.filterMap obsM)
+    {t s mid k : Nat} {c : Bool} (h : Out.tx t s mid k c ∈ l.out) :
+    c = true ∧ ∃ t0 T mx, TOut.tx t s mid k t0 T mx ∈ ts.outs := by
+  have h1 : Obs.tx t s mid k c ∈ l.out.filterMap obsM := List.mem_filterMap.2 ⟨_, h, rfl⟩
+  rw [← ho] at h1
+  obtain ⟨o, ho1, ho2⟩ := List.mem_filterMap.1 h1
+  cases o with
+  | tx t' s' mid' k' t0 T mx =>
+    simp only [obsS, Option.some.injEq, Obs.tx.injEq] at ho2
+    obtain ⟨rfl, rfl, rfl, rfl, rfl⟩ := ho2
+    exact ⟨rfl, t0, T, mx, ho1⟩
+  | nackRetries _ _ _ => simp [obsS] at ho2
+  | nackRst _ _ _ => simp [obsS] at ho2
+  | acked _ _ _ => simp [obsS] at ho2
+
+theorem obs_tx_S_to_M {l : L} {ts : TS} (ho : ts.outs.filterMap obsS = l.out.filterMap obsM)
+    {t s mid k t0 T mx : Nat} (h : TOut.tx t s mid k t0 T mx ∈ ts.outs) : Out.tx t s mid k true ∈ l.out := by
+  have h1 : Obs.tx t s mid k true ∈ ts.outs.filterMap obsS := List.mem_filterMap.2 ⟨_, h, rfl⟩
+  rw [ho] at h1
+  obtain ⟨o, ho1, ho2⟩ := List.mem_filterMap.1 h1
+  cases o with
+  | tx t' s' mid' k' c =>
+    simp only [obsM, Option.some.injEq, Obs.tx.injEq] at ho2
+    obtain ⟨rfl, rfl, rfl, rfl, rfl⟩ := ho2
+    exact ho1
+  | nack t' s' reason mid' known =>
+    cases reason <;> cases known <;> simp [obsM] at ho2
+  | rsp _ _ _ => simp [obsM] at ho2
+  | wait _ _ => simp [obsM] at ho2
+  | sub _ => simp [obsM] at ho2
+
+end Coap.Sim
